@@ -563,6 +563,29 @@ def run_scenarios(pid, tier, seed):
         print(f'invariant {viol["violated"]} violated at observation {viol["line"]}: {viol.get("chk", "")}')
         print(f'VIOLATION property={pid} replay={dd}')
         return 1
+    if pid == 'C20':
+        # dispatched messages: the table of Route.tla played on the real sender worker, every message looked at
+        # only after the worker has gone on with the next one (as a real transport does)
+        core.build(['routex'])
+        vec = f'{rundir}/rvectors.ndjson'
+        nvec = gen_vectors('RouteGen.tla', vec, rundir)
+        robs = f'{rundir}/robs.ndjson'
+        rcmd = f'{V}/build/routex -vectors {vec} -out {robs}'
+        p = core.sh(rcmd)
+        if p.returncode != 0:
+            print(p.stdout[-1500:], p.stderr[-1500:]); core.die('routex failed')
+        r = tlc_trace('RouteTrace.tla', robs, ['C20_DispatchedAsSupplied'], f'{rundir}/rv', extra_consts='  Known = {' + ', '.join(f'"{k}"' for k in known) + '}\n')
+        if r['error']:
+            print(r['error']); core.die('TLC could not validate the dispatched messages (machinery error)')
+        cov['dispatched_messages'] = nvec
+        wall = time.time() - t0
+        if r['violated']:
+            r['module'] = 'RouteTrace.tla'
+            dd = save_violation(pid, r, rcmd)
+            core.write_evidence(pid, tier, seed, level, cov, wall, 1, assumptions)
+            print(f'invariant {r["violated"]} violated at observation {r["line"]} of {r["trace"]}')
+            print(f'VIOLATION property={pid} replay={dd}')
+            return 1
     core.write_evidence(pid, tier, seed, level, cov, wall, 0, assumptions)
     print_known(pid, seen)
     print(f'{pid} {tier}: {len(lines)} of {nall} scenarios played against the real binary ({nsteps} steps) and accepted by TLC; {wall:.0f}s')
